@@ -358,6 +358,18 @@ def sym_getattr(interp, obj, name):
             return pt
         if isinstance(obj, (S.SInt, S.SBool)) and name in ('real', 'numerator'):
             return obj
+        if isinstance(obj, S.SInt) and name == 'bit_length':
+            def bit_length(i, o):
+                # number of bits of |v|: a fresh Int pinned exactly for |v| < 2**200
+                ctx = i.ctx
+                b = ctx.int('nbits', declare=False).t
+                a = z3.If(o.t >= 0, o.t, -o.t)
+                cs = [b >= 0]
+                for k in range(0, 201):
+                    cs.append((a < 2 ** k) == (b <= k))
+                ctx.assume(z3.And(*cs))
+                return SInt(b)
+            return BoundModel(interp, bit_length, obj, name)
         if hasattr(pt, name):
             raise Unsupported("attribute %s of symbolic %s" % (name, pt.__name__))
         raise AttributeError("%r object has no attribute %r" % (pt.__name__, name))
